@@ -12,7 +12,9 @@ EXPLANATION = (
     "symmetric) information matrix and proved equal to sum_ij Omega_ij e_i e_j; Omega = L^T L gives chi2 = sum_k ((L e)_k)^2 "
     "(hence >= 0), chi2 is linear in Omega, Graph.calc_chi2 is the sum over its edges (multisets of real edges, and the "
     "inductive step chi2(G+e) = chi2(G)+chi2(e)), and the error vanishes when the measurement equals the relative pose "
-    "(either quaternion sign)."
+    "(either quaternion sign). History cases: after every query has been evaluated once, the vertices are moved to new "
+    "arbitrary poses (in-place array assignment, rebinding, +=) and error, chi^2 and gradient contributions are proved to be "
+    "those of the CURRENT vertex estimates (no stale cached state)."
 )
 BOUNDS = {"quick": "8 edge kinds; graph sums for all multisets of <=2 edge kinds plus one 3-edge graph", "thorough": "8 edge kinds; all multisets of <=3 edge kinds"}
 OUTSIDE = "rounding; graphs beyond the bound are covered by the fold step only"
@@ -50,10 +52,32 @@ def _conj(q):
     return (-q[0], -q[1], -q[2], q[3])
 
 
-def _error(ek):
+def _touch(P, g, e, v1, v2, mode):
+    """a history before the error is read: evaluate everything once, then move the vertices to NEW arbitrary poses either
+    in place (array assignment), by rebinding v.pose, or through the += operator"""
+    e.calc_error()
+    e.calc_chi2()
+    e.calc_jacobians()
+    e.calc_chi2_gradient_hessian()
+    for k, v in enumerate((v1, v2)):
+        kind = {2: "R2", 7: "SE3"}.get(len(v.pose.to_array()))
+        if kind is None:
+            kind = "SE2" if type(v.pose) is g.PoseSE2 else "R3"
+        new = mk_pose(P, g, kind, "moved%d" % k, wrapped=True)
+        if mode == "inplace":
+            v.pose[:] = new.to_array()
+        elif mode == "rebind":
+            v.pose = new
+        else:
+            v.pose += (new.to_compact() if kind != "SE3" else P.vector("dmove%d" % k, 6, lo=-0.4, hi=0.4))
+
+
+def _error(ek, mode=None):
     def fn(P, g):
         np = P.np
         e, v1, v2 = mk_edge(P, g, ek)
+        if mode is not None:
+            _touch(P, g, e, v1, v2, mode)
         err = e.calc_error()
         kind = ek[1]
         if ek[0] == "odom":
@@ -85,6 +109,19 @@ def _error(ek):
             pred = np.dot(_inv_rigid(P, np.dot(T1, Toff)), hom)
             P.check("error_length", len(err) == n)
             P.check_eq("landmark_error", err, [pred[i] - z[i] for i in range(n)])
+        if mode is not None:
+            # chi2 and the gradient contributions are those of the CURRENT state as well
+            om = e.information
+            ref = 0.0
+            for i in range(len(err)):
+                for j in range(len(err)):
+                    ref = ref + om[i][j] * err[i] * err[j]
+            P.check_eq("chi2_current_state", e.calc_chi2(), ref)
+            c2, grads, hess = e.calc_chi2_gradient_hessian()
+            J = e.calc_jacobians()
+            P.check_eq("gh_chi2_current_state", c2, ref)
+            for a in range(2):
+                P.check_eq("gradient_current_state_%d" % a, grads[a][1], np.dot(np.dot(np.transpose(err), om), J[a]))
 
     return fn
 
@@ -222,6 +259,10 @@ def cases(tier):
         heavy = ek[1] == "SE3"
         out.append(Case("error-%s-%s" % ek, _error(ek), timeout=10, old_timeout=30, validate=v, shards=3 if heavy else 1))
         out.append(Case("zero-%s-%s" % ek, _zero(ek), timeout=10, old_timeout=30, validate=v))
+        for mode in ("inplace", "rebind", "iadd"):
+            if tier == "quick" and heavy and mode != "inplace":
+                continue
+            out.append(Case("history-%s-%s-%s" % (mode, ek[0], ek[1]), _error(ek, mode), timeout=10, old_timeout=30, validate=1, shards=3 if heavy else 1, feas_timeout_ms=1000))
         out.append(Case("edgechi2-%s-%s" % ek, _edge_chi2(ek), timeout=10, validate=v, cert_first=ek[1] in ("SE2", "SE3")))
     for n in (1, 2, 3, 6):
         out.append(Case("chi2-formula-%d" % n, _chi2_formula(n), timeout=20, old_timeout=30, validate=v))
